@@ -66,7 +66,7 @@ fn run_t<T: SampleX>(c0: &Case) -> Outcome {
         o.class(l);
     }
     cfg.channels = 1;
-    cfg.max_rel = 1.0;
+    cfg.max_rel = cfg.max_rel.max(1.0);
     let kind = cfg.kind;
     let is_fft = kind.is_fft();
     let ratio = cfg.nominal_ratio();
@@ -283,8 +283,10 @@ pub fn sinc_fidelity_cfg() -> BoxedStrategy<Config> {
         prop_oneof![1 => Just(0usize), 1 => Just(2048usize), 1 => Just(3usize), 1 => Just(2047usize), 1 => Just(2usize), 8 => (0.0f64..1.0).prop_map(|u| (2048.99f64.powf(u)).floor() as usize)],
         prop_oneof![1 => Just(-1.0f32), 1 => Just(0.95f32), 1 => 0.5f32..1.0],
         0u8..5,
+        // the adjustable range must not influence the filter: half of the instances are built with room for ratio changes
+        prop_oneof![2 => Just(1.0f64), 1 => 1.0f64..2.0, 1 => 2.0f64..16.0],
     )
-        .prop_map(|(f32, fo, ratio, chunk, sinc_len, window, interp, os, fc, kern)| {
+        .prop_map(|(f32, fo, ratio, chunk, sinc_len, window, interp, os, fc, kern, max_rel)| {
             let cc: f32 = rubato::calculate_cutoff::<f32>(8 * ((sinc_len + 7) / 8), window_of(window));
             let f_cutoff = if fc < 0.0 { cc } else { fc };
             // minimum oversampling: 1 for linear / nearest, 2 for quadratic / cubic
@@ -294,7 +296,7 @@ pub fn sinc_fidelity_cfg() -> BoxedStrategy<Config> {
                 1 => Kernel::Sse,
                 _ => Kernel::Dispatch,
             };
-            Config { kind: if fo { Kind::SincOut } else { Kind::SincIn }, f32, ratio, chunk, sinc_len, window, interp, os, f_cutoff, kernel, ..Config::default() }
+            Config { kind: if fo { Kind::SincOut } else { Kind::SincIn }, f32, ratio, chunk, sinc_len, window, interp, os, f_cutoff, kernel, max_rel, ..Config::default() }
         })
         .boxed()
 }
